@@ -54,11 +54,34 @@ def build_harness():
 
 
 def theorem_names(prop):
-    path = os.path.join(LEAN, "JominiModel", "Props", prop + ".lean")
+    """Fully qualified names of the property's theorems: every `theorem` in Props/<id>.lean,
+    plus every `theorem <id>_…` in the files listed under meta `theorem_files` (aggregate
+    properties re-use theorems proved in other slices' Proofs files)."""
+    files = [(os.path.join("Props", prop + ".lean"), None)]
+    for f in PROPS.get(prop, {}).get("theorem_files", []):
+        files.append((f, prop + "_"))
     names = []
-    if os.path.exists(path):
+    for rel, prefix in files:
+        path = os.path.join(LEAN, "JominiModel", rel)
+        if not os.path.exists(path):
+            continue
         txt = strip_comments(open(path).read())
-        names = re.findall(r"^\s*theorem\s+([A-Za-z0-9_'.]+)", txt, re.M)
+        ns = []
+        for line in txt.split("\n"):
+            m = re.match(r"\s*namespace\s+([A-Za-z0-9_.']+)", line)
+            if m:
+                ns.append(m.group(1)); continue
+            m = re.match(r"\s*end\s+([A-Za-z0-9_.']+)\s*$", line)
+            if m and ns and ns[-1] == m.group(1):
+                ns.pop(); continue
+            m = re.match(r"\s*(?:@\[[^\]]*\]\s*)*(?:private\s+|protected\s+)?theorem\s+([A-Za-z0-9_'.]+)", line)
+            if m:
+                short = m.group(1)
+                if prefix and not short.split(".")[-1].startswith(prefix):
+                    continue
+                full = ".".join(ns + [short])
+                if full not in names:
+                    names.append(full)
     return names
 
 
@@ -122,7 +145,7 @@ def proofs(prop, thorough):
         os.makedirs(audit_dir, exist_ok=True)
         audit = os.path.join(audit_dir, prop + ".lean")
         with open(audit, "w") as f:
-            f.write(f"import {mod}\nopen Jomini.Props.{prop}\n")
+            f.write(f"import {mod}\n")
             for n in names:
                 f.write(f"#print axioms {n}\n")
         rc, out = sh(["lake", "env", "lean", audit], cwd=LEAN, timeout=1800)
@@ -143,13 +166,13 @@ def proofs(prop, thorough):
     for m in re.finditer(r"'([^']+)' does not depend on any axioms", out):
         seen[m.group(1)] = []
     for n in names:
-        full = [k for k in seen if k == n or k.endswith("." + n)]
+        full = [k for k in seen if k == n or k.endswith("." + n) or n.endswith("." + k)]
         if not full:
             res["ok"] = False
             res["failures"].append(f"audit: no axiom report for {n}")
             continue
         ax = seen[full[0]]
-        bad = [a for a in ax if a not in ALLOWED_AXIOMS and not (allowed_native and a.startswith(NATIVE_AXIOM_PREFIXES))]
+        bad = [a for a in ax if a not in ALLOWED_AXIOMS and not (allowed_native and (a.startswith(NATIVE_AXIOM_PREFIXES) or "._native.bv_decide.ax_" in a))]
         res["theorems"].append(dict(name=n, axioms=ax))
         if bad or "sorryAx" in ax:
             res["ok"] = False
@@ -190,7 +213,7 @@ def match_known(known, kind, case):
 
 def run_correspondence(harness, prop, tier, seed, outdir):
     os.makedirs(outdir, exist_ok=True)
-    for fn in ("cases.txt", "impl.txt", "model.txt", "stats.json"):
+    for fn in ("cases.txt", "impl.txt", "model.txt", "stats.json", "current_case.txt", "hang.txt"):
         p = os.path.join(outdir, fn)
         if os.path.exists(p):
             os.remove(p)
@@ -198,7 +221,10 @@ def run_correspondence(harness, prop, tier, seed, outdir):
     rc, out = sh([harness, "gen", prop, tier, str(seed), outdir, corpus], timeout=7200)
     if rc != 0:
         # the harness process itself died (abort / stack overflow): that is a C05-type event
-        return dict(died=True, log=out[-3000:], rc=rc)
+        cur = os.path.join(outdir, "current_case.txt")
+        case = open(cur).read().strip() if os.path.exists(cur) else ""
+        hang = os.path.exists(os.path.join(outdir, "hang.txt"))
+        return dict(died=True, log=out[-3000:], rc=rc, case=case, hang=hang)
     driver = os.path.join(LEAN, ".lake", "build", "bin", "jmdriver")
     with open(os.path.join(outdir, "cases.txt"), "rb") as fi, open(os.path.join(outdir, "model.txt"), "wb") as fo:
         p = subprocess.run([driver], stdin=fi, stdout=fo, stderr=subprocess.PIPE, timeout=7200)
@@ -278,7 +304,7 @@ def main():
     known_hits = []
 
     if corr.get("died"):
-        violations.append(("harness-died", "", "the harness process died (abort/stack overflow/timeout): " + corr["log"][-500:], True))
+        violations.append(("hang" if corr.get("hang") else "abort", corr.get("case", ""), "the harness process died while executing this case (abort / stack overflow / hang watchdog), rc=%s: %s" % (corr.get("rc"), corr["log"][-300:]), True))
         corr = dict(evaluations=0, distinct_nontrivial=0, disagreements=[], n_disagreements=0, stats=dict(hist={}, gen_hist={}, violations=[], samples=[]), distinct_results=0)
 
     for v in corr["stats"].get("violations", []):
